@@ -11,7 +11,8 @@ for d in sorted(glob.glob('/verif/seeded/*')):
     first = ev.get('first_violation', '')
     chk = re.search(r'check=([A-Za-z0-9_\-@\[\]\. ]+?)( scenario=| case=|$)', first)
     caught = 'yes' if ev.get('check_exit') == 1 and ev.get('violation_lines', 0) > 0 else ('inconclusive' if ev.get('check_exit') == 2 else 'NO')
-    rows.append((os.path.basename(d), m.get('title', '')[:90], (m.get('needs', '') or '')[:140].replace('\n', ' '),
+    esc = lambda t: t.replace('|', '/').replace('\n', ' ')
+    rows.append((os.path.basename(d), esc(m.get('title', ''))[:90], esc(m.get('needs', '') or '')[:140],
                  caught, (chk.group(1) if chk else '')[:40]))
 print('| id | seeded change | needs | caught | by predicate |')
 print('|---|---|---|---|---|')
